@@ -184,6 +184,23 @@ Proof.
 Qed.
 Print Assumptions shrake_rupley_two_stage_evaluation.
 
+(* ---- atom order (radii and residue mapping are taken in Topology.atoms walk order, xyz in index order) ---- *)
+(* For every topology whose walk order is the index order (all residues contiguous) the as-found code computes exactly
+   the specified call ... *)
+Theorem atom_order_contiguous_harmless : forall c,
+  length (c_resid c) = length (c_elems c) ->
+  as_found_view (seq 0 (length (c_elems c))) c = c.
+Proof. exact as_found_view_contiguous. Qed.
+Print Assumptions atom_order_contiguous_harmless.
+
+(* ... and for an interleaved topology it does not: the statement "atom j gets the area of ITS expanded sphere" is
+   false of the as-found code (witness: C and H far apart, residues interleaved; the areas come out swapped). *)
+Theorem atom_order_current_refuted :
+  shrake_rupley true (sched_serial 1) order_witness = Ok [Some [289; 144]] /\
+  shrake_rupley true (sched_serial 1) (as_found_view (walk_order 2 [1%nat; 0%nat]) order_witness) = Ok [Some [144; 289]].
+Proof. exact atom_order_current_refuted_lemma. Qed.
+Print Assumptions atom_order_current_refuted.
+
 (* ---- non-vacuity: the hypotheses are satisfiable by non-trivial instances ---- *)
 
 (* two overlapping atoms, a selection of one atom, two residues, six points on the unit sphere (M = 4):
